@@ -7,10 +7,10 @@ ID = 'C11'
 LEAN_TARGETS = ['Props.C11']
 OBLIGATIONS = [
     'C11.adjoint_dot', 'C11.compose', 'C11.from_function_on_blades', 'C11.from_function_linear', 'C11.apply_add', 'C11.apply_smul',
-    'C11.from_rotor_linear', 'C11.outer_wedge', 'C11.outer_one', 'C11.outer_vector', 'C11.outer_add', 'C11.outer_smul', 'C11.outer_grade', 'C11.outer_compose', 'C11.outer_pseudoscalar',
+    'C11.from_rotor_linear', 'C11.outer_wedge', 'C11.outer_one', 'C11.outer_vector', 'C11.outer_add', 'C11.outer_smul', 'C11.outer_grade', 'C11.outer_compose', 'C11.outer_pseudoscalar', 'C11.executable_outermorphism_is_omap',
 ]
-PENDING = ['the columns built by the executable Model.makeOutermorphism equal Fprod in storage order: compared with the implementation, not proved']
-PARTIAL = ['the executable outermorphism model is linked to the proof-side ordered products by correspondence only']
+PENDING = []
+PARTIAL = []
 RULE = ("source/destination layouts of dimensions 0..4 (equal or different, any signatures incl. degenerate, custom orders), integer vector matrices of every shape, "
         "integer multivectors; generating functions: random linear maps, rotor sandwiches; non-trivial = non-zero matrix and non-scalar operand; "
         "distinct = distinct (layouts, matrix, operands) text")
